@@ -200,8 +200,10 @@ func SelectAddrFromSubnet(seed []byte, net1 *net.IPNet) (net.IP, error) {
 	bits, addrLen := net1.Mask.Size()
 
 	ipBigInt := &big.Int{}
+	ipLen := net.IPv6len
 	if v4net := net1.IP.To4(); v4net != nil {
 		ipBigInt.SetBytes(net1.IP.To4())
+		ipLen = net.IPv4len
 	} else if v6net := net1.IP.To16(); v6net != nil {
 		ipBigInt.SetBytes(net1.IP.To16())
 	}
@@ -233,8 +235,12 @@ func SelectAddrFromSubnet(seed []byte, net1 *net.IPNet) (net.IP, error) {
 
 	randBigInt.And(randBigInt, maskBigInt)
 	ipBigInt.Add(ipBigInt, randBigInt)
+	if ipBigInt.BitLen() > 8*ipLen {
+		return nil, fmt.Errorf("address out of range")
+	}
 
-	return net.IP(ipBigInt.Bytes()), nil
+	// big.Int.Bytes() drops leading zero bytes; an address needs every byte.
+	return net.IP(ipBigInt.FillBytes(make([]byte, ipLen))), nil
 }
 
 func init() {
